@@ -16,7 +16,7 @@ from vf.families import BENCH_MIN_N, BENCH_NAMES
 ID = "C19"
 LEVEL = "exploration"
 RULE = (
-    "Hypothesis draws (function, n in 1..12 [2.. for chained], x in [-5,5]^n on a 1e-4 grid plus an irrational offset); "
+    "Hypothesis draws (function, n in 1..12 [2.. for chained], x in [-5,5]^n on a 1e-4 grid plus an irrational offset; half of the cases re-use the same array object after moving it in place by a drawn step); "
     "non-trivial = n>=2 and no coordinate within 1e-3 of an integer or half-integer (where the test-suite's integer points live); "
     "distinct = distinct (function, x)"
 )
@@ -48,7 +48,10 @@ def case(draw, name):
     ks = draw(st.lists(st.integers(-49999, 49999), min_size=n, max_size=n))
     off = draw(st.sampled_from([0.0, math.pi * 1e-5, math.e * 1e-5]))
     x = [k * 1e-4 + off for k in ks]
-    return {"bench": name, "x": x}
+    out = {"bench": name, "x": x}
+    if draw(st.booleans()):
+        out["step"] = [k * 1e-3 for k in draw(st.lists(st.integers(-300, 300), min_size=n, max_size=n))]
+    return out
 
 
 def check(spec, stats=None):
@@ -79,6 +82,32 @@ def check(spec, stats=None):
         stats.case(spec, nt, [f"fn={name}", f"n={'1' if n == 1 else '2-4' if n <= 4 else '5-12'}"])
         stats.maxi(f"max_err_over_tol[{name}]", err / tol)
     require(err <= tol, f"gradient-matches[{name}]", f"{name} n={n}: max|grad-D6f|={err:.3e} > tol={tol:.3e} at x={x.tolist()}")
+    # The pair must be a pure function of the *values* handed in: the same array object, modified in
+    # place by the caller between two calls (a very common calling pattern), must be answered at its
+    # current contents, and neither call may modify it.
+    step = np.asarray(spec.get("step", []), dtype=float)
+    if step.size == n and np.any(step != 0):
+        buf = x.copy()
+        f(buf)
+        g(buf)
+        require(np.array_equal(buf, x), f"argument-untouched[{name}]", f"{name}: the argument array was modified")
+        buf += step
+        x2 = x + step
+        if name == "ackley" and np.linalg.norm(x2) < 0.15:
+            return
+        if name == "griewank" and np.any(np.abs(np.cos(x2 / np.sqrt(np.arange(1, n + 1)))) < 1e-3):
+            return
+        g2 = np.asarray(g(buf))
+        f2 = f(buf)
+        require(np.array_equal(buf, x2), f"argument-untouched[{name}]", f"{name}: the argument array was modified")
+        ref2 = richardson_grad(lambda z: float(f(z)), x2.copy())
+        tol2 = 1e-6 * (1.0 + float(np.max(np.abs(ref2))))
+        err2 = float(np.max(np.abs(g2 - ref2)))
+        require(err2 <= tol2, f"gradient-matches[{name}]",
+                f"{name} n={n}: after the caller moved the same array in place, max|grad-D6f|={err2:.3e} > {tol2:.1e} (stale answer for the previous contents?)")
+        require(float(f2) == float(f(x2.copy())), f"value-is-function-of-contents[{name}]", f"{name}: f(same array, new contents)={f2!r} but f(fresh copy)={f(x2.copy())!r}")
+        if stats is not None:
+            stats.bump("cases-with-in-place-move-of-the-argument")
 
 
 def shard(ctx):
